@@ -216,7 +216,8 @@ pub fn state_lines(obs: &Obs, files: &[u64], used: usize, disk: usize) -> Vec<St
         ));
     }
     let fs: Vec<String> = files.iter().map(|f| f.to_string()).collect();
-    lines.push(format!("S files={} used={} disk={}", if fs.is_empty() { "-".into() } else { fs.join(",") }, used, disk));
+    lines.push(format!("F files={} disk={}", if fs.is_empty() { "-".into() } else { fs.join(",") }, disk));
+    lines.push(format!("U used={}", used));
     lines
 }
 
